@@ -1708,6 +1708,175 @@ def genefunctions_specs(draw) -> dict:
     return {"L": length, "genes": genes, "hits": hits, "subregions": subregions, "rid": "rec1", "steps": steps}
 
 
+
+# =========================================================================== whole results file (main.read_data)
+
+REUSE_MODULES = ("sideloader", "full_hmmer", "pfam2go", "tta")
+
+
+def _reuse_record(entry: dict, index: int):
+    unit = "GCTTAGGCATTACCGG"       # TTA in two frames, GC content 0.625
+    record = make_record(entry["L"], False, seq=(unit * (entry["L"] // len(unit) + 1))[:entry["L"]],
+                         record_id=f"rec{index}")
+    record.description = f"generated record {index}"
+    add_genes(record, entry["genes"])
+    return record
+
+
+def _reuse_modules() -> list:
+    from antismash.detection import full_hmmer, sideloader
+    from antismash.modules import pfam2go, tta
+    return [sideloader, full_hmmer, pfam2go, tta]
+
+
+def _reuse_options(spec: dict, path: str = ""):
+    args = ["--fullhmmer", "--fullhmmer-pfamdb-version", "35.0", "--pfam2go", "--enable-tta", "--tta-threshold",
+            repr(float(spec["tta_threshold"])), "--sideload-size-by-cds", str(int(spec["padding"]))]
+    if spec["markers"]:
+        args += ["--sideload-by-cds", ",".join(spec["markers"])]
+    if path:
+        args += ["--reuse-results", path]
+    options = _b()._options(args)
+    options.all_enabled_modules = _reuse_modules()
+    return options
+
+
+def _reuse_pipeline(results, options, path: str) -> None:
+    """ the record loop of main._run_antismash: detection, analysis of the records with regions, the results file,
+        and only then the annotations of the analysis modules """
+    from antismash import main
+    for record, module_results in zip(results.records, results.results):
+        if record.skip:
+            continue
+        main.run_detection(record, options, module_results)
+        if not record.get_regions():
+            continue
+        main.analyse_record(record, options, main.get_analysis_modules(), module_results)
+    results.write_to_file(path)
+    main.annotate_records(results)
+
+
+def check_reuse_file(spec: dict) -> dict:
+    base = _b()
+    scratch = tempfile.mkdtemp(prefix="verif_c11_")
+    try:
+        return _check_reuse_file(spec, scratch)
+    finally:
+        base._cleanup()
+        shutil.rmtree(scratch, ignore_errors=True)
+
+
+def _check_reuse_file(spec: dict, scratch: str) -> dict:
+    from antismash import main
+    from antismash.common import hmmer, pfamdb, serialiser
+    from antismash.detection import sideloader
+    from antismash.modules import pfam2go, tta
+    base = _b()
+
+    # ---- first generation: a run from scratch, the HMMER run of full_hmmer replaced by the generated hits
+    options = _reuse_options(spec)
+    records = [_reuse_record(entry, index) for index, entry in enumerate(spec["records"])]
+    hsps_of = {f"rec{index}": entry["hsps"] for index, entry in enumerate(spec["records"])}
+
+    def fake_run_hmmer(record, _features, max_evalue, min_score, database, tool, **_kwargs):
+        pfamdb.KNOWN_MAPPINGS[database] = dict(PFAM2GO_NAMES)
+        by_profile: dict = {}
+        for hsp in hsps_of[record.id]:
+            by_profile.setdefault(hsp["hit_id"], []).append(types.SimpleNamespace(
+                query_id=hsp["gene"], hit_id=hsp["hit_id"], query_start=hsp["s"], query_end=hsp["e"],
+                evalue=1e-20, bitscore=50.5, hit_description="generated"))
+        fake = [types.SimpleNamespace(id=name, hsps=found) for name, found in by_profile.items()]
+        hits = hmmer.build_hits(record, fake, min_score, max_evalue, database)
+        return hmmer.HmmerResults(record.id, max_evalue, min_score, database, tool, hits)
+
+    first = serialiser.AntismashResults("generated.gbk", records, [{} for _ in records], "verif", taxon="bacteria")
+    paths = [os.path.join(scratch, "generation0.json")]
+    with mock.patch.object(hmmer, "run_hmmer", fake_run_hmmer), base._no_external_tools():
+        made = base._guard(lambda: _reuse_pipeline(first, options, paths[0]))
+    if made[0] != "ok":
+        return {"nontrivial": False, "classes": ["first_run_failed_" + made[1]]}
+    with open(paths[0], encoding="utf-8") as handle:
+        text0 = handle.read()
+    file0 = base._loads(text0)
+    modules0 = [base._dumps(entry["modules"]) for entry in file0["records"]]
+    snaps0 = [base._guard(lambda record=record: base._snapshot(record)) for record in first.records]
+    regions = [bool(record.get_regions()) for record in first.records]
+    pfams = [len(record.get_pfam_domains()) for record in first.records]
+
+    # ---- reusing generations: the file is read back by main.read_data, nothing may be analysed again
+    for cycle in range(1, spec["cycles"] + 1):
+        where = {"cycle": cycle}
+        options = _reuse_options(spec, paths[-1])
+        path = os.path.join(scratch, f"generation{cycle}.json")
+        state: dict = {}
+
+        def work():
+            state["results"] = main.read_data(None, options)
+            _reuse_pipeline(state["results"], options, path)
+        with block((hmmer, "run_hmmer"), (pfam2go, "get_gos_for_pfams"), (tta, "detect"),
+                   (sideloader, "load_single_record_annotations")), base._no_external_tools():
+            outcome = base._guard(work)
+        if outcome[0] == "exc":
+            raise Violation("reuse_failed", dict(where, exception=outcome[1], message=outcome[2],
+                                                 records_with_region=regions, pfam_domains=pfams))
+        reused = state["results"]
+        if [record.id for record in reused.records] != [record.id for record in first.records]:
+            raise Violation("reuse_records", dict(where, got=[record.id for record in reused.records]))
+        with open(path, encoding="utf-8") as handle:
+            text = handle.read()
+        again = base._loads(text)
+        for index, entry in enumerate(again["records"]):
+            base._compare_text("module_results_identity", base._dumps(entry["modules"]), modules0[index],
+                               dict(where, record=entry["id"], has_region=regions[index]))
+        for index, record in enumerate(reused.records):
+            snap = base._guard(lambda record=record: base._snapshot(record))
+            if snap[0] != snaps0[index][0]:
+                raise Violation("effects", dict(where, record=record.id, original=snaps0[index][:2]
+                                                if snaps0[index][0] == "exc" else "ok",
+                                                regenerated=snap[:2] if snap[0] == "exc" else "ok"))
+            if snap[0] == "ok":
+                base._compare_text("effects", snap[1], snaps0[index][1],
+                                   dict(where, record=record.id, has_region=regions[index]))
+        base._compare_text("results_file_identity", text, text0, where)
+        paths.append(path)
+    classes = [f"records_{len(records)}", f"cycles_{spec['cycles']}",
+               f"records_with_region_{min(sum(regions), 2)}", f"records_without_region_{min(len(regions) - sum(regions), 2)}"]
+    if any(count and not region for count, region in zip(pfams, regions)):
+        classes.append("pfam_domains_in_record_without_region")
+    if any(count and region for count, region in zip(pfams, regions)):
+        classes.append("pfam_domains_in_record_with_region")
+    tta_codons = sum(len((entry["modules"].get(tta.__name__) or {}).get("TTA codons", [])) for entry in file0["records"])
+    if tta_codons:
+        classes.append("tta_codons")
+    if any((entry["modules"].get(pfam2go.__name__) or {}).get("pfams") for entry in file0["records"]):
+        classes.append("gene_ontologies")
+    return {"nontrivial": any(pfams) or any(regions), "classes": classes}
+
+
+@st.composite
+def reuse_file_specs(draw) -> dict:
+    names = sorted(PFAM2GO_NAMES)
+    records, markers = [], []
+    for index in range(draw(st.integers(1, 3))):
+        length = draw(st.integers(400, 1200))
+        genes, seen = [], set()
+        for gene in codon_genes(draw, length, max_genes=4):
+            # two genes on the same coordinates (opposite strands) swap places when a record is read back from its
+            # JSON form - the record's own round trip is C10's subject, so they are not generated here
+            key = tuple(gene["loc"]["parts"][0])
+            if key not in seen:
+                seen.add(key)
+                genes.append(gene)
+        for number, gene in enumerate(genes):
+            gene["name"] = f"r{index}g{number}"
+        hsps = draw(_hsps_on(genes, names, 0, 4))
+        if draw(st.integers(0, 2)):      # this record gets a region, from a sideloaded subregion around one gene
+            markers.append(draw(st.sampled_from(genes))["name"])
+        records.append({"L": length, "genes": genes, "hsps": hsps})
+    return {"records": records, "markers": markers, "padding": draw(st.sampled_from([0, 30, 200, 20000])),
+            "tta_threshold": draw(st.sampled_from([0.0, 0.3, 0.65])), "cycles": draw(st.integers(1, 2))}
+
+
 # =========================================================================== registration
 
 SUBCHECKS = {
@@ -1724,6 +1893,7 @@ SUBCHECKS = {
     "cassis": check_cassis,
     "nrps_pks": check_nrps_pks,
     "genefunctions": check_genefunctions,
+    "reuse_file": check_reuse_file,
 }
 RIPP_SUBS = ("lanthi", "lasso", "sacti", "thio")
 
@@ -1798,3 +1968,4 @@ def run(ctx, shards: int) -> None:
     ctx.hyp("cassis", cassis_specs(), max_examples=ctx.pick(400, 10000), shards=shards)
     ctx.hyp("nrps_pks", nrps_pks_specs(), max_examples=ctx.pick(300, 6000), shards=shards)
     ctx.hyp("genefunctions", genefunctions_specs(), max_examples=ctx.pick(400, 10000), shards=shards)
+    ctx.hyp("reuse_file", reuse_file_specs(), max_examples=ctx.pick(160, 3000), shards=shards)
